@@ -69,7 +69,9 @@ class MarkovChain(ABC):
             # set the interval such that updates are roughly once per second
             steps_taken = self.chain_length - start_length
             current_time = time()
-            update_interval = max(1, int(steps_taken / (current_time - start_time)))
+            elapsed = current_time - start_time
+            if elapsed > 0:
+                update_interval = max(1, int(steps_taken / elapsed))
             self.ProgressPrinter.countdown_progress(end_time, steps_taken)
         self.ProgressPrinter.countdown_final(run_time, steps_taken)
 
